@@ -301,6 +301,12 @@ func searches(thorough bool) []*Search {
 	//      the others; runs started at different times, every one of them updated / written on
 	add("ids/a", []string{"a.yaml"}, all, "run open update", nil, d(4, 5), d(3, 4), 1)
 	out[len(out)-1].IDs = "mixed"
+	// (2e) DAG names made of the store's own file-name fragments (.dat, _c next to it, .yaml in the middle, a whole
+	//      timestamped history-file stem), each next to the plain name: complete runs (Close compacts), open runs,
+	//      updates, renames in both directions, retention, deletion
+	for _, n := range []string{"x.dat.yaml", "sales.data.yaml", "a.dat_c.yaml", "a_c.dat.yaml", ".dat.yaml", "a.yaml.b.yaml", "a.20240101.10:00:00.000.abcdef12.yaml"} {
+		add("extname/"+n, []string{n, "a.yaml"}, []int{tT0, tOld}, "run open update rename removeold removeall", []int{0, 30}, d(3, 4), 3, 1)
+	}
 	// (3) every collision-prone pair: rename / retention / deletion across names
 	pairs := [][]string{
 		{"a.yaml", "ab.yaml"}, {"a.yaml", "a_c.yaml"}, {"a.yaml", "a.b.yaml"}, {"a.yaml", "a b.yaml"},
